@@ -54,7 +54,7 @@ type c04Obs struct {
 	Mallocs  uint64   `json:"mallocs"`
 	Dump     string   `json:"dump,omitempty"`
 	Corrupt  string   `json:"corrupt,omitempty"` // the decoded value breaks a Go invariant (slice length < 0 ...)
-	AllocAt  string   `json:"alloc_at,omitempty"` // /repo frame of the largest sampled allocation (only for big deltas)
+	AllocAt  string   `json:"alloc_at,omitempty"` // /repo frames (innermost first, ";"-separated) of the largest sampled allocation (only for big deltas)
 	Name     string   `json:"name,omitempty"`     // service: decoded method name (hex)
 	NArgs    int      `json:"nargs,omitempty"`
 	NRes     int      `json:"nres,omitempty"`
@@ -140,6 +140,17 @@ var (
 )
 
 func stackOfMain() []string {
+	// the goroutine may be on the system stack (a large allocation): its frames are then unavailable; retry
+	for try := 0; try < 400; try++ {
+		if out, ok := stackOfMainOnce(); ok {
+			return out
+		}
+		time.Sleep(5 * time.Millisecond)
+	}
+	return nil
+}
+
+func stackOfMainOnce() ([]string, bool) {
 	buf := make([]byte, 1<<20)
 	n := runtime.Stack(buf, true)
 	txt := string(buf[:n])
@@ -149,6 +160,9 @@ func stackOfMain() []string {
 	for _, b := range blocks {
 		if !strings.HasPrefix(b, "goroutine 1 [") {
 			continue
+		}
+		if strings.Contains(b, "stack unavailable") {
+			return nil, false
 		}
 		for _, ln := range strings.Split(b, "\n") {
 			if strings.HasPrefix(ln, repoPath) {
@@ -163,7 +177,7 @@ func stackOfMain() []string {
 			}
 		}
 	}
-	return out
+	return out, true
 }
 
 func watchdog() {
@@ -225,8 +239,10 @@ func allocSite() string {
 			for {
 				f, more := fs.Next()
 				if strings.HasPrefix(f.Function, repoPath) {
-					s = shortFunc(f.Function)
-					break
+					if s != "" {
+						s += ";"
+					}
+					s += shortFunc(f.Function)
 				}
 				if !more {
 					break
